@@ -859,6 +859,13 @@ pub fn run(a: &Args) -> i32 {
         let s_k = mix(&[a.seed, name_hash("C20-cross"), k]);
         let sc = gen_scenario(s_k, 0);
         let op = ops::find(&sc.op).unwrap();
+        // screened like every other scenario (a skipped entry is ignored by the comparison)
+        if let Some(p) = &pristine {
+            if p.ask(&serde_json::to_vec(&sc).unwrap(), 2).is_none() {
+                cross_digests.push("skipped".to_string());
+                continue;
+            }
+        }
         let input = inputs::build(&sc.input);
         let cfg = Cfg { hash_seed: mix(&[a.shard_i, 77]) | 1, addr_seed: Some(mix(&[a.shard_i, 78]) | 1), workers: 1 + (a.shard_i as usize % 16), strategy: "uniform".into(), sched_seed: a.shard_i, ..Cfg::reference() };
         let (o, info) = run_one(&sc, op, &input, &[], &cfg);
